@@ -169,7 +169,7 @@ struct InclEngine : Engine {
 		static const char * dirs[] = {"/sim/w", "/sim/w/sub", "/sim/x"};
 		int ndirs = (int)w.range(1, 3);
 		bool use_base = w.chance(1, 3), use_wild = w.chance(1, 3), use_faults = fr.chance(1, 2), use_odd = w.chance(1, 3);
-		int fmt = w.chance(1, 2) ? FMT_HTML : gen_text_format(w);
+		int fmt = w.chance(1, 2) ? FMT_HTML : w.chance(1, 3) ? (int)w.below(13) : gen_text_format(w);      // every format has its own wildcard mapping (EPUB -> .html, ODT -> .fodt, bundles -> .txt)
 		bool dag = w.chance(1, 2);          // half of the worlds are acyclic by construction (file i only names files j > i), so clauses (b)/(c) get their share
 		std::vector<std::string> names, paths;
 		for (int i = 0; i < nfiles; i++) {
@@ -286,11 +286,16 @@ struct InclEngine : Engine {
 			unsigned k = (unsigned)w.below(11);
 			if (k == 10) {
 				// the command line tool on a file argument: exercises realpath/dirname and the -o path of main.c
-				o["k"] = "CLI"; o["fmt"] = FMT_MMD;
+				// -t mmd prints the transcluded text itself; the other formats check the wildcard mapping the CLI asks for
+				static const int cf[] = {FMT_MMD, FMT_MMD, FMT_MMD, FMT_HTML, FMT_LATEX, FMT_BEAMER, FMT_MEMOIR, FMT_FODT, FMT_OPML};
+				o["k"] = "CLI"; o["fmt"] = w.chance(1, 2) ? FMT_MMD : (use_wild ? fmt : cf[w.below(9)]);
+				if (o.geti("fmt") != FMT_MMD && o.geti("fmt") != FMT_HTML && o.geti("fmt") != FMT_LATEX && o.geti("fmt") != FMT_BEAMER && o.geti("fmt") != FMT_MEMOIR && o.geti("fmt") != FMT_FODT && o.geti("fmt") != FMT_OPML) o["fmt"] = FMT_MMD;
 				std::string tdir = top.substr(0, top.rfind('/'));
 				o["search"] = tdir; o["src"] = top;
+				// batch mode (-b): every file argument is transcluded and converted on its own, output next to the input
+				if (w.chance(1, 3)) { o["batch"] = true; o["top2"] = paths[w.below((uint64_t)nfiles)]; }
 			} else if (k < 6) {
-				o["k"] = "TRANSCLUDE"; o["fmt"] = i == 0 ? fmt : (w.chance(1, 2) ? fmt : gen_text_format(w));
+				o["k"] = "TRANSCLUDE"; o["fmt"] = i == 0 ? fmt : (w.chance(1, 2) ? fmt : w.chance(1, 3) ? (int)w.below(13) : gen_text_format(w));
 				o["search"] = w.chance(1, 6) ? "/sim/w/" : "/sim/w";
 				o["src"] = top;
 				o["hold_stack"] = w.chance(1, 3);       // pass a caller-owned `parsed` stack instead of NULL
@@ -312,13 +317,33 @@ struct InclEngine : Engine {
 		const Json & files = p.at("world").at("files");
 		std::string saved_cwd = g_sim.cwd;
 		g_sim.cwd = "/sim/w";
+		// a batch run writes its outputs next to the inputs: when such an output would replace a file of the world (a.txt -> a.html
+		// with -t html), later reads see the conversion result and the static bound below no longer describes the run - such an
+		// operation is planned as a single-file run instead
+		for (auto & op : p["ops"].a) if (op.getb("batch")) {
+			static const char * bext[] = {".html", ".epub", ".tex", ".tex", ".tex", ".fodt", ".odt", ".textbundle", ".textpack", ".opml", ".itmz", ".mmdtext", ".html"};
+			bool clash = false;
+			for (const char * key : {"top", "top2"}) {
+				std::string tp = op.gets(key); size_t dot = tp.rfind('.');
+				std::string outp = (dot == std::string::npos || dot == 0 ? tp : tp.substr(0, dot)) + bext[op.geti("fmt", FMT_MMD) % 13];
+				if (files.has(outp)) clash = true;
+			}
+			if (clash) { op.erase("batch"); op.erase("top2"); }
+		}
 		for (auto & op : p.at("ops").a) {
-			Ref r; r.static_files = &files; r.fmt = op.gets("k") == "MANIFEST" ? FMT_HTML : (int)op.geti("fmt", FMT_HTML); r.budget = 100000;
-			std::string top;
-			if (!r.open(op.gets("top"), &top)) continue;
-			std::vector<std::string> anc;
-			std::string out = r.T(top, op.gets("search"), op.gets("src"), anc, 0);
-			opens = std::max<uint64_t>(opens, r.static_opens); bytes = std::max<uint64_t>(bytes, r.static_bytes + out.size());
+			// a batch run of the command line tool works through all its file arguments inside one operation
+			uint64_t op_opens = 0, op_bytes = 0;
+			std::vector<std::string> tops = {op.gets("top")};
+			if (op.getb("batch") && op.gets("top2") != op.gets("top")) tops.push_back(op.gets("top2"));
+			for (auto & tp : tops) {
+				Ref r; r.static_files = &files; r.fmt = op.gets("k") == "MANIFEST" ? FMT_HTML : (int)op.geti("fmt", FMT_HTML); r.budget = 100000;
+				std::string top;
+				if (!r.open(tp, &top)) continue;
+				std::vector<std::string> anc;
+				std::string out = r.T(top, op.gets("k") == "CLI" ? tp.substr(0, tp.rfind('/')) : op.gets("search"), op.gets("k") == "CLI" ? tp : op.gets("src"), anc, 0);
+				op_opens += r.static_opens + 1; op_bytes += r.static_bytes + out.size();      // + 1: the output file
+			}
+			opens = std::max<uint64_t>(opens, op_opens); bytes = std::max<uint64_t>(bytes, op_bytes);
 		}
 		g_sim.cwd = saved_cwd;
 		Json cap = Json::object();
@@ -365,39 +390,82 @@ struct InclEngine : Engine {
 			Json o = Json::object();
 			o["k"] = kind;
 			if (kind == "CLI") {
-				// multimarkdown -t mmd -o <dir>/__out.txt <top>   (the pool bracket of this engine is left and re-entered: the CLI runs its own)
-				std::string outp = top.substr(0, top.rfind('/')) + "/__out.txt";
-				std::vector<std::string> args = {"multimarkdown", "-t", "mmd", "-o", outp, top};
+				// multimarkdown -t FMT -o <dir>/__out.txt <top>      or      multimarkdown -b -t FMT <top> <top2>
+				// (the pool bracket of this engine is left and re-entered: the CLI runs its own)
+				int cfmt = (int)op.geti("fmt", FMT_MMD);
+				static const char * fnames[] = {"html", "epub", "latex", "beamer", "memoir", "fodt", "odt", "bundle", "bundlezip", "opml", "itmz", "mmd", "html"};
+				static const char * bext[] = {".html", ".epub", ".tex", ".tex", ".tex", ".fodt", ".odt", ".textbundle", ".textpack", ".opml", ".itmz", ".mmdtext", ".html"};
+				bool batch = op.getb("batch");
+				std::vector<std::string> tops = {top};
+				if (batch && op.gets("top2") != top) tops.push_back(op.gets("top2"));
+				std::vector<std::string> outps;
+				for (auto & tp : tops) {
+					if (!batch) { outps.push_back(tp.substr(0, tp.rfind('/')) + "/__out.txt"); continue; }
+					size_t dot = tp.rfind('.');
+					outps.push_back((dot == std::string::npos || dot == 0 ? tp : tp.substr(0, dot)) + bext[cfmt % 13]);
+				}
+				std::vector<std::string> args = {"multimarkdown", "-t", fnames[cfmt % 13]};
+				if (batch) { args.push_back("-b"); for (auto & tp : tops) args.push_back(tp); }
+				else { args.push_back("-o"); args.push_back(outps[0]); args.push_back(top); }
 				std::vector<char *> argv; for (auto & a2 : args) argv.push_back(&a2[0]); argv.push_back(nullptr);
 				int rc = IN_LIB(mmd_cli_main((int)args.size(), argv.data()));
-				auto it = g_sim.files.find(outp);
-				std::string got = it == g_sim.files.end() ? std::string() : it->second.written;
-				bool wrote = it != g_sim.files.end();
-				if (wrote) g_sim.files.erase(it);
-				std::vector<OpenRecord> tape;
-				for (auto & r : g_sim.open_log) if (r.path != outp) tape.push_back(r);
-				o["rc"] = rc; o["opens"] = (int64_t)tape.size();
-				if (!tape.empty() && tape[0].ok) {
-					Ref ref; ref.tape = &tape; ref.cursor = 1; ref.fmt = FMT_MMD;
+				o["rc"] = rc;
+				// split the open log into one tape per file argument: the read of the argument itself starts a tape, writes are not part of it
+				std::vector<std::vector<OpenRecord>> tapes;
+				std::vector<std::string> written(tops.size());
+				std::vector<bool> wrote(tops.size(), false), unwritable(tops.size(), false);      // unwritable: the output path cannot be opened (e.g. it is a directory) - nothing to compare
+				{
+					// batch mode processes one argument after the other: read it, transclude, write its output - so a write ends a tape
+					bool fresh = true;
+					for (auto & r : g_sim.open_log) {
+						if (r.writing) { if (!tapes.empty() && tapes.size() <= outps.size() && r.path == outps[tapes.size() - 1]) { if (r.ok) wrote[tapes.size() - 1] = true; else unwritable[tapes.size() - 1] = true; } fresh = true; continue; }
+						if (fresh) { if (tapes.size() == tops.size()) break; tapes.emplace_back(); fresh = false; }
+						tapes.back().push_back(r);
+					}
+				}
+				for (size_t j = 0; j < outps.size(); j++) { auto it = g_sim.files.find(outps[j]); if (it != g_sim.files.end() && wrote[j]) written[j] = it->second.written; }
+				std::string alld;
+				size_t total_opens = 0;
+				for (size_t j = 0; j < tapes.size() && viol.is_null(); j++) {
+					std::vector<OpenRecord> & tape = tapes[j];
+					total_opens += tape.size();
+					if (tape.empty() || !tape[0].ok) continue;
+					Ref ref; ref.tape = &tape; ref.cursor = 1; ref.fmt = cfmt;
 					std::vector<std::string> anc;
 					g_sim.fopen_cap = 0; g_sim.bytes_cap = 0;
 					std::string toptext = strip_bom(tape[0].delivered);
-					std::string want = ref.T(toptext, search, src, anc, 0);
+					std::string tdir = tops[j].substr(0, tops[j].rfind('/'));
+					std::string want = ref.T(toptext, tdir, tops[j], anc, 0);
 					if (ref.mismatch.empty() && ref.cursor != tape.size()) ref.mismatch = "library made " + std::to_string(tape.size() - ref.cursor) + " more open(s) than the model, first extra: " + tape[ref.cursor].path;
 					if (ref.cyclic) { any_cycle = true; probes["guard_hit"]++; }
-					if (!ref.cyclic && viol.is_null()) {
-						if (!ref.mismatch.empty()) { viol = Json::object(); viol["clause"] = "open_sequence_differs"; viol["class"] = kind; viol["detail"] = ref.mismatch; viol["op"] = (int64_t)k; }
-						else if (!wrote || got != as_cstr(want)) {
-							size_t at = 0; while (at < got.size() && at < want.size() && got[at] == want[at]) at++;
-							viol = Json::object(); viol["clause"] = "substitution_differs"; viol["class"] = kind; viol["op"] = (int64_t)k;
-							viol["detail"] = std::string(wrote ? "" : "no output file written; ") + "first difference at byte " + std::to_string(at) + ": CLI " + Json(got.substr(at, 40)).dump() + " model " + Json(want.substr(at, 40)).dump();
-						}
+					if (ref.depth_max > max_depth) max_depth = ref.depth_max;
+					probes[batch ? "cli_batch_files" : "cli_runs"]++;
+					if (cfmt != FMT_MMD) probes["cli_converting_format"]++;
+					if (ref.cyclic) continue;
+					const std::string & got = written[j];
+					if (!ref.mismatch.empty()) { viol = Json::object(); viol["clause"] = "open_sequence_differs"; viol["class"] = batch ? "CLI_BATCH" : "CLI"; viol["detail"] = "file argument " + tops[j] + ": " + ref.mismatch; viol["op"] = (int64_t)k; break; }
+					std::string expect = as_cstr(want);
+					if (cfmt != FMT_MMD) {
+						// what the CLI does after transclusion: convert the text with its default extension set
+						DString * src2 = IN_LIB(d_string_new(expect.c_str()));
+						DString * r2 = IN_LIB(mmd_d_string_convert_to_data(src2, X_SMART | X_NOTES | X_CRITIC | X_TRANSCLUDE, (short)cfmt, 0, tdir.c_str()));
+						expect = r2 ? std::string(r2->str, r2->currentStringLength) : std::string();
+						if (r2) IN_LIB_V(d_string_free(r2, true));
+						IN_LIB_V(d_string_free(src2, true));
 					}
-					probes["cli_runs"]++;
+					if (unwritable[j]) continue;
+					if (!wrote[j] || got != expect) {
+						size_t at = 0; while (at < got.size() && at < expect.size() && got[at] == expect[at]) at++;
+						viol = Json::object(); viol["clause"] = "substitution_differs"; viol["class"] = batch ? "CLI_BATCH" : "CLI"; viol["op"] = (int64_t)k;
+						viol["detail"] = "file argument " + tops[j] + " (-t " + fnames[cfmt % 13] + "): " + std::string(wrote[j] ? "" : "no output file written; ") + "first difference at byte " + std::to_string(at) + ": CLI " + Json(got.substr(at, 40)).dump() + " model " + Json(expect.substr(at, 40)).dump();
+					}
+					alld += digest(got);
 				}
-				o["out"] = digest(got);
+				for (auto & op2 : outps) g_sim.files.erase(op2);
+				o["opens"] = (int64_t)total_opens;
+				o["out"] = digest(alld);
 				g_log.ev("op", kind + ":" + o.gets("out"));
-				st.insert(kind + "/o" + std::to_string(std::min<size_t>(tape.size(), 12)));
+				st.insert(kind + (batch ? "B" : "") + "/f" + std::to_string(cfmt) + "/o" + std::to_string(std::min<size_t>(total_opens, 12)));
 				outs.push(o); executed++;
 				continue;
 			}
